@@ -98,7 +98,7 @@ def c05_exact(rng, tier):
     out = []
     for i, k in enumerate([1, 2] if tier != "quick" else [1]):
         c = GB.BigConv("C05-exact-%d" % i, mode="lockstep")
-        n = k * GB.PM - 9                       # one text cell whose row message is exactly k*(2^24-1) bytes
+        n = GB.cell_len_for_total(k * GB.PM)    # one text cell whose row message is exactly k*(2^24-1) bytes
         c.small(com_query("Q"), seq0=3)
         c.programs.append([op_start([GB.rcol("a")]), op_write_row([GB.vbig(GB.pattern(n, i))]), op_write_row([GB.vbig(GB.pattern(4, 1))]), op_finish()])
         c.small(com_ping())
